@@ -9,7 +9,7 @@ WT="$1"; ID="$2"; PROP="$3"
 DIR="$(cd "$(dirname "$0")/.." && pwd)"
 OUT="$DIR/seeded/$ID"; mkdir -p "$OUT"
 cd "$WT" || exit 2
-git diff -- src > "$OUT/patch.diff"
+git diff -- src Rules > "$OUT/patch.diff"
 [ -s "$OUT/patch.diff" ] || { echo "no change in src"; exit 2; }
 cp tests/demo_mutant.rs "$OUT/demo_mutant.rs" || exit 2
 mv tests/demo_mutant.rs /tmp/demo_$ID.rs
